@@ -23,6 +23,10 @@ var c16Langs = []struct{ Lang, Ext, CodeLine, CommentLine string }{
 	{"Go", ".go", "var x%d = %d", "// comment %d"},
 	{"Python", ".py", "x%d = %d", "# comment %d"},
 	{"Markdown", ".md", "text line %d %d", ""},
+	{"JavaScript", ".js", "var x%d = %d;", "// comment %d"},
+	{"C", ".c", "int x%d = %d;", "// comment %d"},
+	{"C++", ".cpp", "int y%d = %d;", "// comment %d"},
+	{"C Header", ".h", "extern int z%d; // %d", "// comment %d"},
 }
 
 func c16Content(f c16File) string {
@@ -86,7 +90,7 @@ func c16Gen(c *engine.C) engine.Case {
 	case ".idea+empty":
 		ignored, emptyDir = []string{".idea"}, true
 	}
-	include := engine.PickTag(c, "include-ext", "none", "java", "java,go")
+	include := engine.PickTag(c, "include-ext", "none", "java", "java,go", "java,js", "c,cpp,h")
 	topSize := []int{30, 1, 2}[c.Choose(3, "top-size")]
 	return func() engine.Result { return c16Check(files, dirs, ignored, emptyDir, include, topSize) }
 }
@@ -328,7 +332,7 @@ func init() {
 	engine.Register(&engine.Spec{
 		ID:    "C16",
 		Title: "Per-directory line counts add up and agree with the whole-tree count",
-		Rule: "X1 over directory trees with ground truth by construction: 0..3 immediate subdirectories (one with a dot in its name) x 0..3 files each in 4 languages x code {0,1,3,5} / comment {0,1,2} / blank lines x nested sub-subdirectories x files in the root x special directories (.git, .idea, coca_reporter, empty) x include-ext {none, java, java+go} x top-size {30,1,2}; deviation-bounded; " +
+		Rule: "X1 over directory trees with ground truth by construction: 0..3 immediate subdirectories (one with a dot in its name) x 0..3 files each in 8 languages (incl. pairs whose names are prefixes of each other: Java/JavaScript, C/C++/C Header) x code {0,1,3,5} / comment {0,1,2} / blank lines x nested sub-subdirectories x files in the root x special directories (.git, .idea, coca_reporter, empty) x include-ext {none, java, java+go} x top-size {30,1,2}; deviation-bounded; " +
 			"each tree is counted by `coca cloc DIR --by-directory` and `coca cloc DIR --top-file --top-size N` in child processes. Non-trivial = the tree has files.",
 		Assumptions: []string{
 			"line kinds are unambiguous (one statement per code line, whole-line comments, empty blank lines)",
